@@ -183,6 +183,33 @@ func runC18(w *W) {
 	for _, c := range caps {
 		w.Sig(fmt.Sprintf("cap%d", c))
 	}
+	// output side of the conversions: Do on the pooled buffer, or DoInto with a tape-chosen spare capacity
+	docCaps := make([]int, len(docs))
+	for i := range docCaps {
+		docCaps[i] = -1
+		if t.Chance(1, 2, "doc.dointo") {
+			docCaps[i] = pickInt(t, "doc.cap", 0, 1, 16, 64, len(docs[i].js), len(docs[i].js)+9, 4096)
+		}
+	}
+	conv.DefaultBufferSize = pickInt(t, "knob.bufsize", 4096, 4096, 1, 16, 256)
+	// container-keyed maps (legal Thrift, not expressible in JSON) for the skip comparison
+	for k := 0; k < 2; k++ {
+		i32, i64, str := &TType{Kind: tI32}, &TType{Kind: tI64}, &TType{Kind: tSTRING}
+		kst := &TStruct{Name: "K", Fields: []*TField{{ID: 1, Name: "a", T: i32}, {ID: 2, Name: "b", T: str}}}
+		shapes := []*TType{
+			{Kind: tMAP, Key: &TType{Kind: tLIST, Elem: i32}, Elem: i64},
+			{Kind: tMAP, Key: &TType{Kind: tSTRUCT, St: kst}, Elem: str},
+			{Kind: tMAP, Key: &TType{Kind: tMAP, Key: str, Elem: i32}, Elem: &TType{Kind: tLIST, Elem: i32}},
+			{Kind: tMAP, Key: &TType{Kind: tSET, Elem: i32}, Elem: &TType{Kind: tBOOL}},
+		}
+		tt := shapes[t.Intn(len(shapes), "skip.ckey.shape")]
+		sv := (&vgen{t: t, o: vgenOpts{MaxElems: 3, MaxStr: 12, PresentPct: 100}}).value(tt, 3)
+		b := encodeThrift(nil, sv)
+		if len(b) > 0 && t.Chance(1, 3, "skip.ckey.cut") {
+			b = b[:t.Intn(len(b), "skip.ckey.cut.at")]
+		}
+		skips = append(skips, skipCase{tMAP, b})
+	}
 	skipCuts := make([]int, len(docs))
 	for i, d := range docs {
 		if len(d.thrift) > 1 && t.Chance(1, 2, "skip.cut") {
@@ -227,7 +254,15 @@ func runC18(w *W) {
 			name := c18Use(fl)
 			w.NextOp(fmt.Sprintf("j2t doc %d under %s", di, name))
 			w.opFacts = map[string]string{"flavour": name, "negative": fmt.Sprint(d.negative != "")}
-			out, err := cv.Do(ctx, desc, d.js)
+			var out []byte
+			var err error
+			if docCaps[di] >= 0 {
+				buf := make([]byte, 0, docCaps[di])
+				err = cv.DoInto(ctx, desc, d.js, &buf)
+				out = buf
+			} else {
+				out, err = cv.Do(ctx, desc, d.js)
+			}
 			w.opFacts = nil
 			if d.negative != "" {
 				if err == nil {
